@@ -90,7 +90,22 @@ def run_real(bib, lib_abs, keyof, order, keep):
     n = len(lib_abs)
     lines = [None if (i % 4 == 3) else (n - i) * 3 for i in range(n)]
     lib = bib.Library()
+    # every second library is sorted by a long-lived sorter object (one per option set for the whole run) - which has also
+    # sorted THIS library object before, when it held only the first half of its blocks
+    okey = (tuple(order), keep)
+    _CALLS[0] += 1
+    if _CALLS[0] % 2:
+        mw0 = None
+    else:
+        if okey not in _LL:
+            _LL[okey] = bib.middlewares.SortBlocksByTypeAndKeyMiddleware(block_type_order=tuple(cls[k] for k in order), preserve_comments_on_top=keep)
+        mw0 = _LL[okey]
     for i, b in enumerate(lib_abs):
+        if mw0 is not None and i == (n + 1) // 2 and i > 0:
+            try:
+                mw0.transform(lib)
+            except Exception:  # noqa
+                pass
         if b["kind"] == "dup":
             # a duplicate wrapper as the LIBRARY makes it: add a block holding the key (unless one is live), add the
             # duplicate, remove the helper again - the wrapper stays at its position
@@ -109,16 +124,7 @@ def run_real(bib, lib_abs, keyof, order, keep):
         raise core.MachineryError("library construction changed the blocks (duplicate keys in generator?)")
     before = [proj(b) for b in lib.blocks]
     try:
-        # every second library is sorted by a long-lived sorter object (one per option set for the whole run); and the
-        # result is a function of the library: sorting an equal library first, with the same object, changes nothing
-        okey = (tuple(order), keep)
-        _CALLS[0] += 1
-        if _CALLS[0] % 2:
-            mw = bib.middlewares.SortBlocksByTypeAndKeyMiddleware(block_type_order=tuple(cls[k] for k in order), preserve_comments_on_top=keep)
-        else:
-            if okey not in _LL:
-                _LL[okey] = bib.middlewares.SortBlocksByTypeAndKeyMiddleware(block_type_order=tuple(cls[k] for k in order), preserve_comments_on_top=keep)
-            mw = _LL[okey]
+        mw = mw0 or bib.middlewares.SortBlocksByTypeAndKeyMiddleware(block_type_order=tuple(cls[k] for k in order), preserve_comments_on_top=keep)
         out = mw.transform(lib)
     except Exception as e:
         return {"raised": True, "out": [], "unaltered": True, "input_unchanged": True, "exc": type(e).__name__}
@@ -202,7 +208,7 @@ def run(chk: core.Check):
     # ---- T3 ----------------------------------------------------------------
     ncases = 300 if chk.tier == "quick" else 5000
     kinds = ["entry"] * 4 + ["string"] * 2 + ["preamble", "icomment", "icomment", "ecomment", "failed", "dup", "dupfield", "mwerror"]
-    keypool = ["", "a", "b", "B", "A", "ab", "é", "Z", "10", "9", "a b", "ß", "ss", "ſ", "İ"]
+    keypool = ["", "a", "b", "B", "A", "ab", "é", "Z", "10", "9", "a b", "ß", "ss", "ſ", "İ", "E\u0301mile", "\u00c9mile", "\u212a", "K", "\u212b", "\u00c5"]
     cases, inputs = [], {}
     for cid in range(ncases):
         n = rnd.randint(0, 14)
